@@ -204,6 +204,7 @@ def run(ctx, rep) -> None:
     _r1(ctx, rep)
     _r11_incomplete_branches(ctx, rep)
     _r12_after_stage_gate(ctx, rep)
+    _r13_redirect(ctx, rep)
     _r6(ctx, rep)
 
     # ---- R2 ----------------------------------------------------------------------------------------
@@ -693,3 +694,98 @@ def _r12_after_stage_gate(ctx, rep) -> None:
                               (f"; also accepts {extra}: after-stages start while core work is unfinished or halted" if extra else "")), mi.file, c.lineno, disc="after-gate")
     if n == 0:
         raise AnalysisError("CompleteStage: the element-wise core-work gate (`all(<status predicate> for s in core)` setting the after-stage flag) was not found")
+
+
+# ---- R13: a task result that CompleteTask does not continue from is always accompanied by the message that does --------------
+def _eval3(e: ast.expr, subject: str, m: str, T):
+    """three-valued truth of e for status m of `subject`; atoms that are not status predicates are unknown (None)"""
+    from ..statuspred import status_set
+    if isinstance(e, ast.UnaryOp) and isinstance(e.op, ast.Not):
+        r = _eval3(e.operand, subject, m, T)
+        return None if r is None else not r
+    if isinstance(e, ast.BoolOp):
+        vals = [_eval3(v, subject, m, T) for v in e.values]
+        if isinstance(e.op, ast.And):
+            return False if any(v is False for v in vals) else (None if any(v is None for v in vals) else True)
+        return True if any(v is True for v in vals) else (None if any(v is None for v in vals) else False)
+    ss = status_set(e, subject, T)
+    return None if ss is None else (m in ss)
+
+
+def _r13_redirect(ctx, rep) -> None:
+    prog, T = ctx.prog, ctx.st
+    rep.rule("C05.R13", "every task-result status for which CompleteTask stores the task and pushes nothing (REDIRECT: 'flow handled by JumpToStage') reaches CompleteTask only from a commit that also pushes JumpToStage")
+    # A. statuses CompleteTask does not continue from
+    ct = prog.cls("stabilize.handlers.complete_task", "CompleteTaskHandler")
+    from ..statuspred import status_set
+    nocont: set = set()
+    where = None
+    for mi in ct.methods.values():
+        for i in ast.walk(mi.node):
+            if not isinstance(i, ast.If):
+                continue
+            ss = status_set(i.test, "message.status", T)
+            if ss is None or not i.body:
+                continue
+            leaves = isinstance(i.body[-1], ast.Return)
+            pushes = any(isinstance(c, ast.Call) and isinstance(c.func, ast.Attribute) and c.func.attr in ("push_message", "push") for s in i.body for c in ast.walk(s))
+            stores = any(isinstance(c, ast.Call) and isinstance(c.func, ast.Attribute) and c.func.attr == "store_stage" for s in i.body for c in ast.walk(s))
+            if leaves and stores and not pushes:
+                nocont |= set(ss)
+                where = (mi.file, i.lineno)
+    rep.count(completetask_no_continuation_statuses=len(nocont))
+    if not nocont:
+        rep.ok("C05.R13", "CompleteTask continues from every status", "no status-specific branch of CompleteTask stores without pushing", "src/stabilize/handlers/complete_task.py", 0)
+        return
+    # B. dispatch of the task result
+    pr = prog.func("stabilize.handlers.run_task.result", "process_result")
+    chain = []
+    top = [s for s in pr.node.body if isinstance(s, ast.If) and status_set(s.test, "result.status", T) is not None or (isinstance(s, ast.If) and "result.status" in norm(s.test))]
+    disp = None
+    for s in pr.node.body:
+        if isinstance(s, ast.If) and "result.status" in norm(s.test) and s.orelse:
+            disp = s
+    if disp is None:
+        raise AnalysisError("process_result: the if/elif dispatch on result.status was not found")
+    cur = disp
+    while True:
+        chain.append((cur.test, cur.body))
+        if len(cur.orelse) == 1 and isinstance(cur.orelse[0], ast.If):
+            cur = cur.orelse[0]
+        else:
+            chain.append((None, cur.orelse))
+            break
+    mod = prog.modules["stabilize.handlers.run_task.result"]
+    n = 0
+    for idx, (test, body) in enumerate(chain):
+        reach = set()
+        for m in T.members:
+            if test is not None and _eval3(test, "result.status", m, T) is False:
+                continue
+            if any(t is not None and _eval3(t, "result.status", m, T) is True for t, _ in chain[:idx]):
+                continue
+            reach.add(m)
+        callees = [norm(c.func) for s in body for c in ast.walk(s) if isinstance(c, ast.Call) and isinstance(c.func, ast.Name) and c.func.id in mod.functions]
+        for cal in callees:
+            fn = mod.functions[cal].node
+            ctors = {}
+            for c in ast.walk(fn):
+                if isinstance(c, ast.Call) and isinstance(c.func, ast.Name) and c.func.id[:1].isupper() and any(k.arg == "execution_id" for k in c.keywords):
+                    ctors.setdefault(c.func.id, []).append(c)
+            for c in ctors.get("CompleteTask", []):
+                st = [k.value for k in c.keywords if k.arg == "status"]
+                if not st:
+                    continue
+                if norm(st[0]) == "result.status":
+                    sent = set(reach)
+                else:
+                    from ..status_tables import _member_of
+                    mm = _member_of(st[0])
+                    sent = {mm} if mm else set(reach)
+                bad = sorted(sent & nocont)
+                n += 1
+                ok = not bad or "JumpToStage" in ctors
+                rep.check(ok, "C05.R13", f"{cal}: its CompleteTask carries only statuses CompleteTask continues from, or comes with JumpToStage", "JumpToStage pushed in the same commit" if ok and bad else ("never carries a status CompleteTask stops at" if ok else
+                          f"`{cal}` is reached with result.status in {bad} (dispatch branch {idx + 1}) and pushes CompleteTask({bad[0]}) WITHOUT JumpToStage; CompleteTask stores the task {bad[0]} and pushes nothing "
+                          f"({where[0]}:{where[1]}): the stage stays RUNNING with nothing queued"), pr.file, c.lineno, disc=f"redirect:{cal}:{'+'.join(bad)}")
+    rep.floor("CompleteTask pushes of task results", n, 2)
